@@ -298,6 +298,7 @@ ARGS = [
     "(function () {})", "(function (a, b) { return NaN; })", "(function () { throw new Error('cb'); })", "true", "/x/g", "({valueOf: function () { throw new Error('v'); }, toString: function () { throw new Error('t'); }})",
     "({valueOf: function () { return {}; }, toString: function () { return {}; }})", "({length: 4294967296, 0: 1})", "({length: -1})", "({get length() { throw new Error('len'); }})", "'\\ud800'", "(function () { return arguments; })(1)",
     "new Int32Array(2)", "Object.create(null)", "[[1], [2]]", "({toString: function () { return 'k'; }, valueOf: function () { return 3; }})", "'__proto__'", "'constructor'", "'9'.repeat(5000)", "'(['", "'{\"a\":'", "'a{99999}'", "'$<$1$&'", "'\\\\'", "'\\n\\u2028'", "1e400", "-9007199254740993", "0.1", "36", "'😀'", "new Error('e')",
+    "'$1\u00b2'", "'$\u00b2$1\u0663'", "'\u00b2'", "'\u0663'", "'\uff11\uff12'", "'a{\u00b2}'", "'1\u00b2'", "'\u2460'", "'0x\u00b2'", "'1e\u00b2'",
     "(function f() { return f; })", "[undefined, null, NaN]", "({then: 1, length: '2', 0: 'a', 1: 'b'})",
     # callbacks that re-enter the receiver (r is the receiver of the call being made): grow it, shrink it, replace elements, call the same
     # method again from inside, or make the receiver throw on access
